@@ -1,6 +1,7 @@
 package main
 
 import (
+	"unsafe"
 	"fmt"
 	"strings"
 
@@ -156,6 +157,31 @@ func checkC16(c *Ctx) {
 			c.Violate("clone", "clone shares the tape's backing array with the original", "clone-shares-tape", info)
 			continue
 		}
+		// backing arrays (up to their capacity: appends land there) must be disjoint
+		if ov := overlapping(orig, clone); ov != "" {
+			info["shared"] = ov
+			c.Violate("clone", "clone shares a backing array with the original: "+ov, "clone-shares-buffer", info)
+			continue
+		}
+		// directed: a string edit on each side, then both must show their own value
+		if pos, perr := flatPositions(orig, 400); perr == nil {
+			for _, p := range pos {
+				if p.IsValue && (p.Tag == simdjson.TagString || p.Tag == simdjson.TagInteger || p.Tag == simdjson.TagFloat || p.Tag == simdjson.TagUint) {
+					io, ic := iterAt(orig, p.K), iterAt(clone, p.K)
+					e1 := io.SetString("ORIGINAL-side")
+					e2 := ic.SetStringBytes([]byte("clone-SIDE-value"))
+					io, ic = iterAt(orig, p.K), iterAt(clone, p.K)
+					so, _ := io.String()
+					sc, _ := ic.String()
+					c.Ev.Count("clone-string-both-sides", []byte(fmt.Sprintf("%x|%d", doc, p.K)), true)
+					if e1 != nil || e2 != nil || so != "ORIGINAL-side" || sc != "clone-SIDE-value" {
+						info["orig_reads"], info["clone_reads"] = so, sc
+						c.Violate("clone", "after SetString on the original and on the clone one side reads the other's bytes", "clone-string-alias", info)
+					}
+					break
+				}
+			}
+		}
 		var ops []string
 		ho := &history{doc: doc, pj: orig}
 		hc := &history{doc: doc, pj: clone}
@@ -194,4 +220,48 @@ func dumpOf(pj *simdjson.ParsedJson) string {
 		return "ERR " + err.Error()
 	}
 	return d
+}
+
+// overlapping reports which buffers of two results share memory (compared over
+// their full capacity, since appends write there)
+func overlapping(a, b *simdjson.ParsedJson) string {
+	rng := func(x []byte) (uintptr, uintptr) {
+		x = x[:cap(x)]
+		if len(x) == 0 {
+			return 0, 0
+		}
+		p := uintptr(unsafe.Pointer(&x[0]))
+		return p, p + uintptr(len(x))
+	}
+	rngT := func(x []uint64) (uintptr, uintptr) {
+		x = x[:cap(x)]
+		if len(x) == 0 {
+			return 0, 0
+		}
+		p := uintptr(unsafe.Pointer(&x[0]))
+		return p, p + 8*uintptr(len(x))
+	}
+	ov := func(a0, a1, b0, b1 uintptr) bool { return a0 != a1 && b0 != b1 && a0 < b1 && b0 < a1 }
+	var out []string
+	a0, a1 := rngT(a.Tape)
+	b0, b1 := rngT(b.Tape)
+	if ov(a0, a1, b0, b1) {
+		out = append(out, "Tape")
+	}
+	if a.Strings != nil && b.Strings != nil {
+		a0, a1 = rng(a.Strings.B)
+		b0, b1 = rng(b.Strings.B)
+		if ov(a0, a1, b0, b1) {
+			out = append(out, "Strings.B")
+		}
+		if a.Strings == b.Strings {
+			out = append(out, "Strings(pointer)")
+		}
+	}
+	a0, a1 = rng(a.Message)
+	b0, b1 = rng(b.Message)
+	if ov(a0, a1, b0, b1) {
+		out = append(out, "Message")
+	}
+	return strings.Join(out, ",")
 }
